@@ -71,7 +71,7 @@ pub struct SameCase {
 }
 
 fn same_strat(tier: Tier) -> BoxedStrategy<SameCase> {
-  (bytes(tier.pick(600, 4000)), bytes(40), prop_oneof![1 => Just(1u32), 6 => 2u32..9, 2 => 9u32..25], vec(proptest::option::of(bytes(200)), 2..7), sel_spec())
+  (bytes(tier.pick(600, 4000)), epoch(), prop_oneof![1 => Just(1u32), 6 => 2u32..9, 2 => 9u32..25], vec(proptest::option::of(bytes(200)), 2..7), sel_spec())
     .prop_map(|(m, e, t, aux, sel)| SameCase { tr: Triple { m, e, t }, aux, sel })
     .boxed()
 }
@@ -178,7 +178,7 @@ pub struct DiffCase {
 }
 
 fn triple(max: usize) -> BoxedStrategy<Triple> {
-  (bytes(max), bytes(40), prop_oneof![6 => 1u32..33, 1 => 33u32..200, 1 => any::<u32>()]).prop_map(|(m, e, t)| Triple { m, e, t }).boxed()
+  (bytes(max), epoch(), prop_oneof![6 => 1u32..33, 1 => 33u32..200, 1 => any::<u32>()]).prop_map(|(m, e, t)| Triple { m, e, t }).boxed()
 }
 
 fn diff_strat(_t: Tier) -> BoxedStrategy<DiffCase> {
